@@ -144,3 +144,8 @@ where
         Ok(BlockRet::Again)
     }
 }
+
+#[cfg(rustradio_verif)]
+pub mod verif_access {
+    include!(concat!(env!("RUSTRADIO_VERIF_DIR"), "/access/stream_to_pdu.rs"));
+}
